@@ -199,9 +199,27 @@ def _fold_flow(ctx) -> None:
             cond = f"{pinned} if {pinned}.utcoffset() != {call}.utcoffset() else {call}"
             if small is not None and small[1] is True:
                 units = small[0]
-                ctx.ob("FOLD.small-units", f"DateTime.{q}/instance-fold", units <= SMALL and s == disp,
-                       f"for units {sorted(units)} the dispatcher returns `{s}`; only second/minute/hour may use the "
-                       f"instance itself (its fold is forwarded by set(): {fwd})", m.loc(ex[2]))
+                # below a day the instance's fold keeps the occurrence of a repeated time, but a boundary that does not exist
+                # (transitions that are not whole hours) must not be resolved by it: the value computed with the instance's
+                # fold may only be returned when it names the same wall time as the one computed with the pinned fold
+                sm_call = f"getattr(self.replace(fold={pin_recv}), f'{pre}{{unit}}')()"
+                guarded = (f"{disp} if {disp}.naive() == {sm_call}.naive() else {sm_call}",
+                           f"{sm_call} if {disp}.naive() != {sm_call}.naive() else {disp}",
+                           f"{disp} if {disp}.replace(tzinfo=None) == {sm_call}.replace(tzinfo=None) else {sm_call}")
+                if s == disp:
+                    ctx.ob("FOLD.small-units", f"DateTime.{q}/instance-fold", False,
+                           f"for units {sorted(units)} the dispatcher returns `{s}` unconditionally: a skipped {'start' if pin_recv else 'end'} "
+                           f"(e.g. 02:00-02:30 in Australia/Lord_Howe) is then resolved by the fold the value happens to carry, "
+                           f"{'backward into the previous' if pin_recv else 'forward into the next'} unit", m.loc(ex[2]))
+                elif s in tuple(g.replace(f"fold={pin_recv}", f"fold={1 - pin_recv}") for g in guarded):
+                    ctx.ob("FOLD.small-units", f"DateTime.{q}/instance-fold", False,
+                           f"a skipped {'start' if pin_recv else 'end'} is resolved with fold={1 - pin_recv}, i.e. "
+                           f"{'backward into the previous' if pin_recv else 'forward into the next'} unit; must be fold={pin_recv}", m.loc(ex[2]))
+                elif s in guarded:
+                    ctx.ob("FOLD.small-units", f"DateTime.{q}/instance-fold", units <= SMALL,
+                           f"for units {sorted(units)}: the instance's fold is used when the boundary exists, fold={pin_recv} otherwise", m.loc(ex[2]))
+                else:
+                    ctx.unverified("FOLD.small-units", f"DateTime.{q}/instance-fold", f"dispatcher returns `{s[:120]}`", m.loc(ex[2]))
             else:
                 covered = small[0] if small is not None else set()
                 ok = s in (pinned, cond) and SMALL <= (covered | (set() if small is not None else SMALL)) and fwd
